@@ -84,7 +84,9 @@ impl BatchAccumulator {
         self.base_offset
     }
 
-    pub fn materialize_batch_and_update_state(&mut self) -> RetainedMessageBatch {
+    /// Builds the batch that is going to be written, the messages stay buffered (and readable)
+    /// until `clear` is called, which happens once the batch is in the files.
+    pub fn materialize_batch(&self) -> RetainedMessageBatch {
         let batch_base_offset = self.base_offset;
         let batch_last_offset_delta = (self.current_offset - self.base_offset) as u32;
 
@@ -95,16 +97,10 @@ impl BatchAccumulator {
             0
         };
 
-        let messages = std::mem::take(&mut self.messages);
         let mut bytes = BytesMut::with_capacity(self.current_size.as_bytes_u64() as usize);
-        for message in messages {
+        for message in &self.messages {
             message.extend(&mut bytes);
         }
-
-        self.base_offset = 0;
-        self.current_size = IggyByteSize::from(0);
-        self.current_offset = 0;
-        self.current_timestamp = 0;
 
         let batch_payload = bytes.freeze();
         let batch_payload_len = IggyByteSize::from(batch_payload.len() as u64);
@@ -115,6 +111,14 @@ impl BatchAccumulator {
             batch_payload_len,
             batch_payload,
         )
+    }
+
+    pub fn clear(&mut self) {
+        self.messages.clear();
+        self.base_offset = 0;
+        self.current_size = IggyByteSize::from(0);
+        self.current_offset = 0;
+        self.current_timestamp = 0;
     }
 }
 
